@@ -11,7 +11,7 @@ sys.path.insert(0, VERIF)
 
 
 # properties whose check the lead has run and accepted (an unfinished module is not claimed)
-READY = ["C12", "C15", "C20", "C05", "C08", "C09", "C10", "C07", "C06", "C11", "C16", "C03", "C02", "C01", "C04", "C14", "C17", "C18", "C19"]
+READY = ["C13", "C12", "C15", "C20", "C05", "C08", "C09", "C10", "C07", "C06", "C11", "C16", "C03", "C02", "C01", "C04", "C14", "C17", "C18", "C19"]
 
 
 def load_claims():
